@@ -1,9 +1,12 @@
 //! C09 — objective values. Runs the real `SingleObjective` / `MultiObjective` constructors,
 //! comparison operators and derived arithmetic operators on bit patterns; prints raw results
 //! (bit patterns, orderings, panics). Classification is left to the Lean driver.
+use hcommon::problems::TagProblem;
 use hcommon::*;
-use mahf::{MultiObjective, SingleObjective};
-use std::cmp::Ordering;
+use mahf::population::BestIndividual;
+use mahf::{Individual, MultiObjective, SingleObjective};
+use std::cmp::{Ordering, Reverse};
+use std::collections::{BTreeMap, BTreeSet, BinaryHeap};
 
 fn ord(o: Ordering) -> &'static str {
     match o {
@@ -40,6 +43,91 @@ fn fxs(v: &[f64]) -> String {
     list(v.iter().map(|x| fx(*x)))
 }
 
+/// `(xs x1 x2 ...)` -> legal objectives (None if one of them is rejected by the constructor).
+fn tagged_objs(x: &Sx) -> Option<Vec<SingleObjective>> {
+    let (_, items) = x.head().unwrap();
+    items.iter().map(obj).collect()
+}
+fn kref<'a>(q: &&'a (SingleObjective, usize)) -> &'a SingleObjective {
+    &q.0
+}
+fn opt_ix(o: Option<usize>) -> String {
+    match o {
+        Some(i) => format!("(some {})", i),
+        None => "none".into(),
+    }
+}
+fn bits_of(v: &[SingleObjective]) -> String {
+    list(v.iter().map(|o| fx(o.value())))
+}
+fn idx_of(p: &[(SingleObjective, usize)]) -> String {
+    nats(p.iter().map(|q| q.1 as u64))
+}
+
+/// Users of the order in std, each run on the real `Ord` / `PartialOrd` / `PartialEq` of `SingleObjective`.
+/// Elements are identified by their position in the input (a pointer offset or an explicit tag).
+fn std_case(op: &str, v: &[SingleObjective], arg: Option<&Sx>) -> String {
+    let p: Vec<(SingleObjective, usize)> = v.iter().cloned().zip(0..).collect();
+    let at = |r: &SingleObjective| -> usize {
+        (r as *const SingleObjective as usize - v.as_ptr() as usize) / std::mem::size_of::<SingleObjective>()
+    };
+    let r = catch(|| match op {
+        "min" => opt_ix(v.iter().min().map(at)),
+        "max" => opt_ix(v.iter().max().map(at)),
+        "min_by_key" => opt_ix(p.iter().min_by_key(|q| q.0).map(|q| q.1)),
+        "max_by_key" => opt_ix(p.iter().max_by_key(|q| q.0).map(|q| q.1)),
+        "min_by_key_ref" => opt_ix(p.iter().min_by_key(kref).map(|q| q.1)),
+        "max_by_key_ref" => opt_ix(p.iter().max_by_key(kref).map(|q| q.1)),
+        "min_by" => opt_ix(p.iter().min_by(|a, b| a.0.cmp(&b.0)).map(|q| q.1)),
+        "max_by" => opt_ix(p.iter().max_by(|a, b| a.0.cmp(&b.0)).map(|q| q.1)),
+        "tuple_min" => opt_ix(p.iter().min().map(|q| q.1)),
+        "tuple_max" => opt_ix(p.iter().max().map(|q| q.1)),
+        "sort" => { let mut s = v.to_vec(); s.sort(); bits_of(&s) }
+        "sort_by" => { let mut s = p.clone(); s.sort_by(|a, b| a.0.cmp(&b.0)); idx_of(&s) }
+        "sort_by_key" => { let mut s = p.clone(); s.sort_by_key(|q| q.0); idx_of(&s) }
+        "sort_by_cached_key" => { let mut s = p.clone(); s.sort_by_cached_key(|q| q.0); idx_of(&s) }
+        "sort_rev" => { let mut s = p.clone(); s.sort_by_key(|q| Reverse(q.0)); idx_of(&s) }
+        "tuple_sort" => { let mut s = p.clone(); s.sort(); idx_of(&s) }
+        "sort_unstable" => { let mut s = v.to_vec(); s.sort_unstable(); bits_of(&s) }
+        "sort_unstable_by" => { let mut s = p.clone(); s.sort_unstable_by(|a, b| a.0.cmp(&b.0)); idx_of(&s) }
+        "sort_unstable_by_key" => { let mut s = p.clone(); s.sort_unstable_by_key(|q| q.0); idx_of(&s) }
+        "select_nth" => {
+            let k = arg.and_then(|a| a.nat()).unwrap() as usize;
+            let mut s = p.clone();
+            s.select_nth_unstable_by_key(k, |q| q.0);
+            idx_of(&s)
+        }
+        "heap" => bits_of(&BinaryHeap::from(v.to_vec()).into_sorted_vec()),
+        "btree_collect" => {
+            let s: BTreeSet<SingleObjective> = v.iter().cloned().collect();
+            bits_of(&s.into_iter().collect::<Vec<_>>())
+        }
+        "btree_insert" => {
+            let mut s = BTreeSet::new();
+            let flags: Vec<String> = v.iter().map(|o| b(s.insert(*o))).collect();
+            list([tagged("set", s.iter().map(|o| fx(o.value()))), tagged("flags", flags)])
+        }
+        "btree_map" => {
+            let mut m = BTreeMap::new();
+            for q in &p { m.insert(q.0, q.1); }
+            list(m.iter().map(|(k, i)| list([fx(k.value()), i.to_string()])))
+        }
+        "binary_search" => {
+            let needle = obj(arg.unwrap()).unwrap();
+            let mut s = v.to_vec();
+            s.sort();
+            let r = match s.binary_search(&needle) {
+                Ok(i) => format!("(ok {})", i),
+                Err(i) => format!("(err {})", i),
+            };
+            list([tagged("sorted", s.iter().map(|o| fx(o.value()))), r])
+        }
+        "dedup" => { let mut s = v.to_vec(); s.dedup(); bits_of(&s) }
+        _ => panic!("unknown std op {op}"),
+    });
+    r.unwrap_or("panic".into())
+}
+
 fn run_case(input: &Sx) -> String {
     let (name, a) = input.head().unwrap();
     match name {
@@ -64,6 +152,10 @@ fn run_case(input: &Sx) -> String {
                 tagged("eq", [b(x == y)]),
                 tagged("pcmp", [oord(x.partial_cmp(&y)).to_string()]),
                 tagged("cmp", [cmp_s(&x, &y).to_string()]),
+                tagged("ne", [b(x != y)]),
+                // `impl Ord for &A` / `impl PartialOrd for &A` (what `min_by_key(|i| i.objective())` compares with)
+                tagged("rcmp", [catch(|| Ord::cmp(&&x, &&y)).map(ord).unwrap_or("panic").to_string()]),
+                tagged("rlt", [b(&x < &y)]),
             ])
         }
         "op" => {
@@ -120,7 +212,54 @@ fn run_case(input: &Sx) -> String {
                 tagged("pcmp", [oord(x.partial_cmp(&y)).to_string()]),
                 tagged("lt", [b(x < y)]),
                 tagged("gt", [b(x > y)]),
+                tagged("le", [b(x <= y)]),
+                tagged("ge", [b(x >= y)]),
+                tagged("ne", [b(x != y)]),
             ])
+        }
+        "ord2" => {
+            let (Some(x), Some(y)) = (obj(&a[0]), obj(&a[1])) else { return "illegal".into() };
+            let show = |o: Option<SingleObjective>| o.map(|o| fx(o.value())).unwrap_or("panic".into());
+            list([
+                tagged("min", [show(catch(|| Ord::min(x, y)))]),
+                tagged("max", [show(catch(|| Ord::max(x, y)))]),
+                tagged("cmin", [show(catch(|| std::cmp::min(x, y)))]),
+                tagged("cmax", [show(catch(|| std::cmp::max(x, y)))]),
+                tagged("rmin", [show(catch(|| *Ord::min(&x, &y)))]),
+                tagged("rmax", [show(catch(|| *Ord::max(&x, &y)))]),
+            ])
+        }
+        "clamp" => {
+            let (Some(x), Some(lo), Some(hi)) = (obj(&a[0]), obj(&a[1]), obj(&a[2])) else { return "illegal".into() };
+            catch(|| x.clamp(lo, hi)).map(|o| fx(o.value())).unwrap_or("panic".into())
+        }
+        "lex" => {
+            let (Some(x), Some(y)) = (tagged_objs(&a[0]), tagged_objs(&a[1])) else { return "illegal".into() };
+            let c = catch(|| x.cmp(&y)).map(ord).unwrap_or("panic");
+            list([
+                tagged("cmp", [c.to_string()]),
+                tagged("pcmp", [oord(x.partial_cmp(&y)).to_string()]),
+                tagged("eq", [b(x == y)]),
+                tagged("lt", [b(x < y)]),
+                tagged("le", [b(x[..] <= y[..])]),
+            ])
+        }
+        "std" => {
+            let op = a[0].atom().unwrap();
+            let Some(v) = tagged_objs(&a[1]) else { return "illegal".into() };
+            std_case(op, &v, a.get(2))
+        }
+        "best" => {
+            let Some(v) = tagged_objs(&a[0]) else { return "illegal".into() };
+            let pop: Vec<Individual<TagProblem>> =
+                v.iter().enumerate().map(|(i, o)| Individual::new(i as u64, *o)).collect();
+            let r = catch(|| {
+                let whole = pop.best_individual().map(|i| *i.solution() as usize);
+                let sl: &[Individual<TagProblem>] = &pop[..];
+                let slice = sl.best_individual().map(|i| *i.solution() as usize);
+                list([tagged("vec", [opt_ix(whole)]), tagged("slice", [opt_ix(slice)])])
+            });
+            r.unwrap_or("panic".into())
         }
         "mtrip" => {
             let (Some(x), Some(y), Some(z)) = (mobj(&a[0]), mobj(&a[1]), mobj(&a[2])) else { return "illegal".into() };
@@ -336,6 +475,159 @@ fn main() {
         let y = if r.chance(3, 4) { bump(&mut r, &x) } else { r.pick(&v7).clone() };
         let z = if r.chance(3, 4) { bump(&mut r, &y) } else { r.pick(&v7).clone() };
         emit("MultiObjective::order3", format!("(mtrip {} {} {})", vs(&x), vs(&y), vs(&z)));
+    }
+    // 7. multi-objective, long vectors (7..64, a few up to 300): structured relations, so that equal / dominating /
+    //    trade-off / length-mismatch outcomes all occur at every length and the deciding coordinate sits anywhere
+    let bigger = |r: &mut Sm, b: u64| -> Option<u64> {
+        let x = f64::from_bits(b);
+        if x == f64::INFINITY { return None; }
+        Some(match r.below(4) {
+            0 => f64::INFINITY.to_bits(),
+            1 => { let y = f64::from_bits(if x > 0.0 { b + 1 } else if x < 0.0 { b - 1 } else { 1 }); y.to_bits() } // next double up
+            _ => { let y = if x.abs() < 1e300 { x.abs() * 2.0 + 1.0 } else { f64::INFINITY }; y.to_bits() }
+        })
+    };
+    let long_len = |r: &mut Sm| -> usize { if r.chance(1, 12) { 65 + r.below(236) as usize } else { 7 + r.below(58) as usize } };
+    let long_vec = |r: &mut Sm, n: usize| -> Vec<u64> {
+        (0..n).map(|_| if r.chance(2, 3) { *r.pick(&g7) } else { rand_legal(r) }).collect()
+    };
+    let pos = |r: &mut Sm, n: usize| -> usize { match r.below(4) { 0 => 0, 1 => n - 1, _ => r.below(n as u64) as usize } };
+    let flip_zeros = |r: &mut Sm, v: &mut Vec<u64>| {
+        for b in v.iter_mut() { if *b << 1 == 0 && r.chance(1, 2) { *b ^= 1 << 63; } }
+    };
+    for _ in 0..(if a.thorough { 12_000 } else { 1_500 }) {
+        let n = long_len(&mut r);
+        let x = long_vec(&mut r, n);
+        let mut y = x.clone();
+        let kind = r.below(8);
+        let k = 1 + r.below(3) as usize;
+        match kind {
+            0 => flip_zeros(&mut r, &mut y), // equal (possibly through signed zeros)
+            1 | 2 => { // x dominates y in k coordinates (kind 2: the pair is emitted the other way round below)
+                for _ in 0..k { let i = pos(&mut r, n); if let Some(w) = bigger(&mut r, y[i]) { y[i] = w; } }
+                flip_zeros(&mut r, &mut y);
+            }
+            3 | 4 => { // trade-off: one coordinate up, another one down
+                let i = pos(&mut r, n);
+                let mut j = pos(&mut r, n);
+                if j == i { j = (i + 1 + r.below(n as u64 - 1) as usize) % n; }
+                if let Some(w) = bigger(&mut r, y[i]) { y[i] = w; }
+                let mut x2 = x.clone();
+                if let Some(w) = bigger(&mut r, x2[j]) { x2[j] = w; }
+                emit("MultiObjective::partial_cmp", format!("(mcmp {} {})", vs(&x2), vs(&y)));
+                continue;
+            }
+            5 => { y.truncate(n - 1 - r.below(3).min(n as u64 - 1) as usize); } // proper prefix
+            6 => { y.push(*r.pick(&g7)); } // one longer
+            _ => { y = long_vec(&mut r, n); }
+        }
+        if kind == 2 {
+            emit("MultiObjective::partial_cmp", format!("(mcmp {} {})", vs(&y), vs(&x)));
+        } else {
+            emit("MultiObjective::partial_cmp", format!("(mcmp {} {})", vs(&x), vs(&y)));
+        }
+        // chains for transitivity: x <= y <= z coordinate-wise
+        if kind <= 2 {
+            let mut z = y.clone();
+            if r.chance(2, 3) { let i = pos(&mut r, n); if let Some(w) = bigger(&mut r, z[i]) { z[i] = w; } }
+            flip_zeros(&mut r, &mut z);
+            emit("MultiObjective::order3", format!("(mtrip {} {} {})", vs(&x), vs(&y), vs(&z)));
+        }
+    }
+    // constructor on long vectors: all legal, or one / two illegal coordinates at the front, the back, anywhere
+    let illegal_bits: Vec<u64> = sp.iter().cloned().filter(|b| !legal(f64::from_bits(*b))).collect();
+    for _ in 0..(if a.thorough { 6_000 } else { 800 }) {
+        let n = if r.chance(1, 3) { 4 + r.below(4) as usize } else { long_len(&mut r) };
+        let mut v = long_vec(&mut r, n);
+        match r.below(6) {
+            0 => {}
+            5 => { let i = pos(&mut r, n); v[i] = *r.pick(&illegal_bits); let j = pos(&mut r, n); v[j] = *r.pick(&illegal_bits); }
+            _ => { let i = pos(&mut r, n); v[i] = *r.pick(&illegal_bits); }
+        }
+        emit("MultiObjective::try_from", format!("(mtry {})", vs(&v)));
+    }
+
+    // 8. the provided methods of Ord: min / max (by value, std::cmp, through references), clamp
+    let g_ord: Vec<u64> = [0.0f64, -0.0, 1.0, -1.0, 2.0, 0.5, f64::MAX, f64::MIN, f64::MIN_POSITIVE, -f64::MIN_POSITIVE,
+        f64::INFINITY, 1.0 + f64::EPSILON].iter().map(|x| x.to_bits()).chain([1u64, 0x8000_0000_0000_0001]).collect();
+    for &x in &g_ord { for &y in &g_ord {
+        emit("Ord::min_max", format!("(ord2 {} {})", xb(x), xb(y)));
+    } }
+    for _ in 0..(if a.thorough { 5_000 } else { 500 }) {
+        let x = rand_legal(&mut r);
+        let y = if r.chance(1, 3) { x ^ (((x << 1 == 0) as u64) << 63) } else { rand_legal(&mut r) };
+        emit("Ord::min_max", format!("(ord2 {} {})", xb(x), xb(y)));
+    }
+    let g_clamp: Vec<u64> = [0.0f64, -0.0, 1.0, -1.0, 2.0, f64::MIN, f64::INFINITY].iter().map(|x| x.to_bits())
+        .chain([1u64, 0x8000_0000_0000_0001]).collect();
+    for &x in &g_clamp { for &lo in &g_clamp { for &hi in &g_clamp {
+        emit("Ord::clamp", format!("(clamp {} {} {})", xb(x), xb(lo), xb(hi)));
+    } } }
+    for _ in 0..(if a.thorough { 5_000 } else { 500 }) {
+        emit("Ord::clamp", format!("(clamp {} {} {})", xb(rand_legal(&mut r)), xb(rand_legal(&mut r)), xb(rand_legal(&mut r))));
+    }
+
+    // 9. lexicographic comparison of slices of objectives
+    let g5: Vec<u64> = [-0.0f64, 0.0, 1.0, -1.0, f64::INFINITY].iter().map(|x| x.to_bits()).collect();
+    let tl = |t: &str, v: &[u64]| tagged(t, v.iter().map(|b| xb(*b)));
+    let l52 = vectors(&g5, 2);
+    for x in &l52 { for y in &l52 {
+        emit("slice::cmp", format!("(lex {} {})", tl("xs", x), tl("ys", y)));
+    } }
+    for _ in 0..(if a.thorough { 5_000 } else { 500 }) {
+        let n = r.below(12) as usize;
+        let x: Vec<u64> = (0..n).map(|_| if r.chance(2, 3) { *r.pick(&g5) } else { rand_legal(&mut r) }).collect();
+        let mut y = x.clone();
+        flip_zeros(&mut r, &mut y);
+        match r.below(4) {
+            0 => {}
+            1 => { y.truncate(r.below(n as u64 + 1) as usize); }
+            2 => { y.push(*r.pick(&g5)); }
+            _ => { if n > 0 { let i = r.below(n as u64) as usize; y[i] = *r.pick(&g5); } }
+        }
+        emit("slice::cmp", format!("(lex {} {})", tl("xs", &x), tl("ys", &y)));
+    }
+
+    // 10. users of the order in std (and `BestIndividual` of /repo) on whole collections
+    const OPS: [&str; 24] = ["min", "max", "min_by_key", "max_by_key", "min_by_key_ref", "max_by_key_ref", "min_by", "max_by",
+        "tuple_min", "tuple_max", "sort", "sort_by", "sort_by_key", "sort_by_cached_key", "sort_rev", "tuple_sort",
+        "sort_unstable", "sort_unstable_by", "sort_unstable_by_key", "heap", "btree_collect", "btree_insert", "btree_map",
+        "dedup"];
+    let mut users = |r: &mut Sm, v: &[u64], all_args: bool| {
+        let xs = tl("xs", v);
+        for op in OPS { emit(&format!("std::{op}"), format!("(std {op} {xs})")); }
+        emit("BestIndividual::best_individual", format!("(best {xs})"));
+        if all_args {
+            for k in 0..v.len() { emit("std::select_nth", format!("(std select_nth {xs} {k})")); }
+            for &nd in &g5 { emit("std::binary_search", format!("(std binary_search {xs} {})", xb(nd))); }
+        } else {
+            if !v.is_empty() { emit("std::select_nth", format!("(std select_nth {xs} {})", r.below(v.len() as u64))); }
+            let nd = if !v.is_empty() && r.chance(2, 3) { let b = *r.pick(v); if b << 1 == 0 && r.chance(1, 2) { b ^ (1 << 63) } else { b } }
+                     else { rand_legal(r) };
+            emit("std::binary_search", format!("(std binary_search {xs} {})", xb(nd)));
+        }
+    };
+    // all lists of length <= 3 over {-0, 0, 1, -1, inf}, all of length 4 over {-0, 0, 1}
+    for v in vectors(&g5, 3) { users(&mut r, &v, true); }
+    for v in vectors(&g5[..3], 4).into_iter().filter(|v| v.len() == 4) { users(&mut r, &v, true); }
+    // random lists: tie-heavy pools, both zeros forced into half of them; sizes across std's small-sort / merge / quicksort paths
+    let pool_a: Vec<u64> = [-0.0f64, 0.0, 1.0, -1.0, f64::INFINITY].iter().map(|x| x.to_bits())
+        .chain([1u64, 0x8000_0000_0000_0001]).collect();
+    for _ in 0..(if a.thorough { 2_500 } else { 280 }) {
+        let n = match r.below(16) { 0 => 65 + r.below(336), 1..=3 => 21 + r.below(44), 4..=6 => 9 + r.below(12), _ => r.below(9) } as usize;
+        let kind = r.below(3);
+        let mut v: Vec<u64> = (0..n).map(|_| match kind {
+            0 => *r.pick(&pool_a),
+            1 => if r.chance(1, 2) { *r.pick(&core) } else { rand_legal(&mut r) },
+            _ => if r.chance(1, 4) { *r.pick(&pool_a) } else { rand_legal(&mut r) },
+        }).collect();
+        if n >= 2 && r.chance(1, 2) {
+            let i = r.below(n as u64) as usize;
+            let j = (i + 1 + r.below(n as u64 - 1) as usize) % n;
+            v[i] = 0.0f64.to_bits();
+            v[j] = (-0.0f64).to_bits();
+        }
+        users(&mut r, &v, false);
     }
     out.finish();
 }
